@@ -326,7 +326,8 @@ def exh_string(index, alpha):
 RUN_UNITS = [u'\u0301', u'\u0300\u0301', 'a', 'a1', '\\', '(', ')', '[', '/*', '*/', "'", '"', '/', '.', '0', 'e', '+', '-', ' ',
              '\n', u'\u203f', '\\u0061', '=', 'x=', '/a', '*', '{', '}', ';', ',', '?a:', 'a.']
 RUN_CONTEXTS = ['%s', 'get %s(', 'set\n%s (', 'var get;\nget\na%s = 1;', 'x = {get a%s(){}}', 'x = /%s', 'x = /[%s', "'%s",
-                '"\\%s', 'a%s', 'a%s;', '/*%s', '//%s', 'x = 1%s', 'return\n%s;', 'a\n++%s']
+                '"\\%s', 'a%s', 'a%s;', '/*%s', '//%s', 'x = 1%s', 'return\n%s;', 'a\n++%s', 'return\n%sx', 'break\n%sa()',
+                'a = b\n%s++c', 'x = {get%s(){}}', 'throw /*c*/\n%se']
 
 
 def run_texts():
@@ -368,7 +369,7 @@ def run_shard(shard):
             st.sampled_from(gen_lexsoup.WS + gen_lexsoup.LTS + gen_lexsoup.COMMENTS),
             st.sampled_from(['/', '/=', '/re/', '/[/', '/*', '*/', '//', '"', "'", '\\', '\\u', '\\u00', '0x', '1e',
                              '.', '..', '08', '1.2.3', '"\\', "'\\x", '/\\', '/a\n/', '#', '@', '`', u'\ud800',
-                             '\x00', '<!--', '-->', '\\u0061', 'a\\u0062', '\\u0030']),
+                             '\x00', '<!--', '-->', '\\u0061', 'a\\u0062', '\\u0030', '/a/y', '/b/gg', '/c/u9', '/d/$', u'/e/\u00e9', '/f/g_']),
         )
         strat = st.lists(pieces, max_size=12).map(''.join)
         run_given(strat, lambda t: one(t, 'soup'), shard['n'], shard['hseed'], acc)
